@@ -169,7 +169,59 @@ func (l *Loaded) FuncDecl(rel, name string) (*ast.FuncDecl, *packages.Package) {
 	if cnt == 1 {
 		return only, p
 	}
+	// renamed: the one function of the package with the shape this anchor has
+	if finder, ok := shapeAnchors[rel+"."+fn]; ok {
+		var match *ast.FuncDecl
+		m := 0
+		for _, f := range p.Syntax {
+			for _, d := range f.Decls {
+				if fd, ok := d.(*ast.FuncDecl); ok && fd.Body != nil && finder(p, fd) {
+					match = fd
+					m++
+				}
+			}
+		}
+		if m == 1 {
+			return match, p
+		}
+	}
 	return nil, p
+}
+
+// shapeAnchors: for anchors whose function is identified by what it is rather than what it is
+// called — used only when no declaration of the expected name exists.
+var shapeAnchors = map[string]func(p *packages.Package, fd *ast.FuncDecl) bool{
+	// the displacement-width classifier: func(int64) int
+	"internal/codegen.getOffsetSize": func(p *packages.Package, fd *ast.FuncDecl) bool {
+		fn, _ := p.TypesInfo.Defs[fd.Name].(*types.Func)
+		if fn == nil || fd.Recv != nil {
+			return false
+		}
+		sig := fn.Type().(*types.Signature)
+		if sig.Params().Len() != 1 || sig.Results().Len() != 1 {
+			return false
+		}
+		pb, ok1 := sig.Params().At(0).Type().Underlying().(*types.Basic)
+		rb, ok2 := sig.Results().At(0).Type().Underlying().(*types.Basic)
+		return ok1 && ok2 && pb.Kind() == types.Int64 && rb.Kind() == types.Int
+	},
+	// the symbol-name encoder: takes the name, returns the 8-byte name field
+	"internal/filefmt.convertNameToBytes": func(p *packages.Package, fd *ast.FuncDecl) bool {
+		fn, _ := p.TypesInfo.Defs[fd.Name].(*types.Func)
+		if fn == nil {
+			return false
+		}
+		sig := fn.Type().(*types.Signature)
+		if sig.Results().Len() != 1 || sig.Params().Len() < 1 {
+			return false
+		}
+		arr, ok := sig.Results().At(0).Type().Underlying().(*types.Array)
+		if !ok || arr.Len() != 8 {
+			return false
+		}
+		pb, ok := sig.Params().At(0).Type().Underlying().(*types.Basic)
+		return ok && pb.Kind() == types.String
+	},
 }
 
 // AllFuncDecls calls fn for every function declaration (with body) of the repository's
